@@ -312,7 +312,7 @@ def op_det(st, rep, case):
         with contextlib.redirect_stdout(io.StringIO()):
             (ffi.emit_c_code if spec['src'] is not None else ffi.emit_python_code)(f)
         same('file-like-target', f.getvalue().encode('utf-8'), 'emit')
-        hashes[str(seed)] = hashlib.sha256((b1 or b'') + (b'x' if hs == '1' and seed % 50 == 0 else b'')).hexdigest()[:20]
+        hashes[str(seed)] = hashlib.sha256(b1 or b'').hexdigest()[:20]
         if case.get('want_text'):
             hashes['text'] = (b1 or b'').decode('utf-8', 'replace')
         shutil.rmtree(os.path.dirname(base), ignore_errors=True)
@@ -349,7 +349,7 @@ def op_idem(st, rep, case):
                         'crlf-copy': N0.replace(b'\r\n', b'\n').replace(b'\n', b'\r\n'),
                         'undecodable': N0[:k] + b'\xff\xfe' + N0[k:]}[pre])
         steps = [('first:' + pre, 0, True), ('again', 0, False), ('changed', 1, True),
-                 ('again-changed', 1, True), ('back', 0, True)]
+                 ('again-changed', 1, False), ('back', 0, True)]
         for label, v, want in steps:
             s = (s0, s1)[v]
             old = Snap(target)
@@ -736,7 +736,7 @@ def strace_seed(ctx, seed, exe, only=None):
                                                      'args': q['args'][:80], 'target': state})
         ctx.count('strace_kill_on_entry_' + q['name'])
         ctx.count('strace_target_' + state)
-        if state not in ('old',):
+        if state not in ('old', 'new'):
             ctx.violation('crash:target-%s:sigkill' % state,
                           'seed %d: SIGKILL on entry of syscall #%d of the write window, %s(%s): '
                           'target is %s; directory holds %r' % (seed, q['pos'], q['name'],
